@@ -192,6 +192,9 @@ inductive OCall where
   | assignList (c : Side) (ys : List Item)               -- c = { … }
   | compare                                              -- a == b, a != b, a < b, a <= b, a > b, a >= b
   | contents (c : Side)                                  -- traversal begin() … end()
+  | rcontents (c : Side)                                 -- traversal rbegin() … rend() (also crbegin() … crend())
+  | constructRange (c : Side) (ys : List Item)           -- c is destroyed and constructed as X(first, last[, comp][, alloc])
+  | constructList (c : Side) (ys : List Item)            -- c is destroyed and constructed as X({ … }[, comp][, alloc])
 deriving DecidableEq, Repr, Inhabited
 
 /-- the documented preconditions, nothing else: iterators denote positions of the current sequence (hints and range
@@ -274,6 +277,10 @@ def OCall.spec (kd : Kind) (s : St) : OCall → St × Obs
   | .assignList c ys => (s.put c (sInsertMany kd.multi [] ys), .done)
   | .compare => (s, seqCmp s.a s.b)
   | .contents c => (s, .items (s.get c))
+  -- [container.rev.reqmts]: `rbegin()` is `reverse_iterator(end())`
+  | .rcontents c => (s, .items (s.get c).reverse)
+  -- [associative.reqmts] `X(i, j, c)`: "constructs an empty container and inserts elements from the range [i, j) into it"
+  | .constructRange c ys | .constructList c ys => (s.put c (sInsertMany kd.multi [] ys), .done)
 
 /-- a history is legal when every call is legal in the state in which it is issued -/
 def OCall.legalFrom (kd : Kind) : St → List OCall → Bool
@@ -347,6 +354,11 @@ inductive VCall where
   | constructMove (c : Side)
   | compare
   | contents (c : Side)
+  | rcontents (c : Side)                                 -- rbegin() … rend() / crbegin() … crend()
+  | constructN (c : Side) (n v : Nat)                    -- c is destroyed and constructed as vector(n, value) (vector(n): value 0)
+  | constructRange (c : Side) (ys : List Nat)            -- … as vector(first, last) / vector({ … })
+  | reserve (c : Side) (n : Nat)                         -- reserve(n): no effect on the sequence
+  | shrinkToFit (c : Side)                               -- shrink_to_fit(): no effect on the sequence
 deriving DecidableEq, Repr, Inhabited
 
 /-- preconditions of [sequence.reqmts] / [vector]: positions inside `[begin, end]`, dereferenceable where an element is
@@ -385,6 +397,10 @@ def VCall.spec (s : VSt) : VCall → VSt × Obs
   | .assignMove c | .constructMove c => ((s.put c (s.get c.other)).put c.other [], .done)
   | .compare => (s, vecCmp s.a s.b)
   | .contents c => (s, .vals (s.get c))
+  | .rcontents c => (s, .vals (s.get c).reverse)
+  | .constructN c n v => (s.put c (List.replicate n v), .done)
+  | .constructRange c ys => (s.put c ys, .done)
+  | .reserve _ _ | .shrinkToFit _ => (s, .done)
 
 def VCall.legalFrom : VSt → List VCall → Bool
   | _, [] => true
@@ -468,6 +484,11 @@ inductive UCall where
   | assignList (c : Side) (ys : List Item)
   | compare                                              -- a == b, a != b
   | contents (c : Side)
+  | constructRange (c : Side) (ys : List Item)           -- c is destroyed and constructed as X(first, last[, n[, hf[, eq]]][, alloc])
+  | constructList (c : Side) (ys : List Item)            -- … as X({ … }[, n[, hf[, eq]]][, alloc])
+  | reserve (c : Side) (n : Nat)                         -- reserve(n)
+  | rehash (c : Side) (n : Nat)                          -- rehash(n)
+  | maxLoadFactor (c : Side)                             -- max_load_factor(z), any legal z
 deriving DecidableEq, Repr, Inhabited
 
 /-- preconditions: an iterator argument denotes an element of the container, the `unordered_map` members exist only
@@ -543,6 +564,9 @@ def UCall.spec (s : St) : UCall → St × Obs
   -- the two element multisets are equal
   | .compare => (s, .eqne (s.a.isPerm s.b) (!(s.a.isPerm s.b)))
   | .contents c => (s, .items (canon (s.get c)))
+  | .constructRange c ys | .constructList c ys => (s.put c (suInsertMany [] ys), .done)
+  -- [unord.req]: `rehash` / `reserve` / `max_load_factor(z)` change the bucket structure only: the elements stay
+  | .reserve _ _ | .rehash _ _ | .maxLoadFactor _ => (s, .done)
 
 def UCall.legalFrom (isMap : Bool) : St → List UCall → Bool
   | _, [] => true
@@ -595,6 +619,8 @@ inductive MCall where
   | assignList (c : Side) (ys : List Item)
   | compare
   | contents (c : Side)
+  | constructRange (c : Side) (ys : List Item)           -- c is destroyed and constructed from a range
+  | constructList (c : Side) (ys : List Item)            -- … from an initializer list
 deriving DecidableEq, Repr, Inhabited
 
 def MCall.legal (s : St) : MCall → Bool
@@ -630,6 +656,7 @@ def MCall.spec (s : St) : MCall → St × Obs
   | .assignList c ys => (s.put c ys, .done)
   | .compare => (s, .eqne (s.a.isPerm s.b) (!(s.a.isPerm s.b)))
   | .contents c => (s, .items (canon (s.get c)))
+  | .constructRange c ys | .constructList c ys => (s.put c ys, .done)
 
 def MCall.legalFrom : St → List MCall → Bool
   | _, [] => true
